@@ -8,6 +8,7 @@ import (
 	"hash"
 	"hash/fnv"
 	"os"
+	"os/exec"
 	"reflect"
 	"sort"
 	"strconv"
@@ -179,6 +180,21 @@ func c19SchedWorker(args []string) int {
 		shard, _ := strconv.Atoi(args[2])
 		shards, _ := strconv.Atoi(args[3])
 		c19SchedulesPass(&out, tier == "thorough", shard, shards)
+	case "cold1":
+		// one schedule of one program from a cold start: args[1] = threads JSON, args[2] = prefix JSON
+		var threads []string
+		var prefix []int
+		if json.Unmarshal([]byte(args[1]), &threads) != nil || json.Unmarshal([]byte(args[2]), &prefix) != nil {
+			return 2
+		}
+		b, _ := json.Marshal(c19ColdOne(threads, prefix))
+		os.Stdout.Write(b)
+		return 0
+	case "cold":
+		tier := args[1]
+		shard, _ := strconv.Atoi(args[2])
+		shards, _ := strconv.Atoi(args[3])
+		c19ColdPass(&out, tier == "thorough", shard, shards)
 	case "judge":
 		var cs c19Case
 		if err := json.Unmarshal([]byte(args[2]), &cs); err != nil {
@@ -347,6 +363,162 @@ func c19SchedulesPass(out *c19WorkerOut, thorough bool, shard, shards int) {
 
 func schedChoices(e *mc.SchedExec) []int { return e.Choices() }
 
+// ---- cold-start exploration: every schedule in a fresh process, nothing warmed up
+//
+// A lazily initialised table, cache or pool is only interesting the FIRST time it
+// is used; after the warm-up passes above it is a non-event. Here each execution
+// is a child process that builds the inputs with reference code, runs exactly one
+// schedule of the program and only afterwards computes the sequential results.
+
+type c19ColdRun struct {
+	mc.SchedRun
+	Want []string
+	Err  string
+}
+
+func c19ParseThread(alpha []c19Call, tn string) (ci, v int) {
+	for i := len(tn) - 1; i >= 0; i-- {
+		if tn[i] == '#' {
+			v, _ = strconv.Atoi(tn[i+1:])
+			name := tn[:i]
+			for k := range alpha {
+				if alpha[k].Name == name {
+					return k, v
+				}
+			}
+		}
+	}
+	return -1, 0
+}
+
+func c19ColdOne(threads []string, prefix []int) c19ColdRun {
+	alpha := c19Alphabet()
+	in := c19Build(0, heapAlloc{})
+	var bodies []func() string
+	var cis, vs []int
+	for _, tn := range threads {
+		ci, v := c19ParseThread(alpha, tn)
+		if ci < 0 {
+			return c19ColdRun{Err: "unknown call " + tn}
+		}
+		cis, vs = append(cis, ci), append(vs, v)
+		bodies = append(bodies, func() string { return c19Str(alpha[ci].Do(in, v)) })
+	}
+	e, err := mc.RunSchedule(bodies, prefix, func(f func(int)) { verifsched.Hook = f }, 5*time.Second)
+	out := c19ColdRun{SchedRun: e.Info()}
+	if err != nil {
+		out.Stuck = true
+		return out
+	}
+	// the reference: the same calls, sequentially, afterwards
+	for i := range cis {
+		out.Want = append(out.Want, c19Safe(&alpha[cis[i]], in, vs[i]))
+	}
+	return out
+}
+
+func c19ColdPrograms(alpha []c19Call, in *c19In, thorough bool) [][]c19Thread {
+	pick := func(ci, slot int) int {
+		n := alpha[ci].N(in)
+		return []int{n / 2, n / 3}[slot] % n
+	}
+	var out [][]c19Thread
+	for a := range alpha {
+		out = append(out, []c19Thread{{a, pick(a, 0)}, {a, pick(a, 1)}})
+	}
+	if thorough {
+		var tri []int
+		for i, cl := range alpha {
+			if cl.Tri {
+				tri = append(tri, i)
+			}
+		}
+		for x := 0; x < len(tri); x++ {
+			for y := x + 1; y < len(tri); y++ {
+				out = append(out, []c19Thread{{tri[x], pick(tri[x], 0)}, {tri[y], pick(tri[y], 1)}})
+			}
+		}
+	}
+	return out
+}
+
+func c19ColdPass(out *c19WorkerOut, thorough bool, shard, shards int) {
+	alpha := c19Alphabet()
+	in := c19Build(0, heapAlloc{})
+	progs := c19ColdPrograms(alpha, in, thorough)
+	self, err := os.Executable()
+	if err != nil {
+		out.Err = err.Error()
+		return
+	}
+	bound := 1
+	if thorough {
+		bound = 2
+	}
+	for pi := shard; pi < len(progs); pi += shards {
+		p := c19Program{Threads: progs[pi], Bound: bound}
+		names := p.names(alpha)
+		tj, _ := json.Marshal(names)
+		// programs whose calls are long get bound 1 only: every schedule is a process
+		nviol := 0
+		var lastErr string
+		st := mc.ExploreRuns(bound, func(prefix []int) mc.SchedRun {
+			pj, _ := json.Marshal(prefix)
+			cmd := exec.Command(self, "-worker", "c19sched", "cold1", string(tj), string(pj))
+			cmd.Env = append(os.Environ(), "GOMAXPROCS=1")
+			b, err := cmd.Output()
+			var r c19ColdRun
+			if err != nil || json.Unmarshal(b, &r) != nil || r.Err != "" {
+				lastErr = fmt.Sprint(err, r.Err)
+				return mc.SchedRun{Stuck: true}
+			}
+			// smuggle the reference through the results: "got\x01want"
+			for i := range r.Results {
+				w := ""
+				if i < len(r.Want) {
+					w = r.Want[i]
+				}
+				r.Results[i] += "\x01" + w
+			}
+			if len(r.Points) > 60 && len(prefix) == 0 {
+				// too long to fork one process per schedule: keep the default schedule only
+				r.Points = nil
+			}
+			return r.SchedRun
+		}, func(r mc.SchedRun, prefix []int) {
+			for i, gw := range r.Results {
+				k := 0
+				for k < len(gw) && gw[k] != 1 {
+					k++
+				}
+				got, want := gw[:k], ""
+				if k < len(gw) {
+					want = gw[k+1:]
+				}
+				if got != want && nviol < 2 && len(out.Viols) < 40 {
+					nviol++
+					var ch []int
+					for _, pt := range r.Points {
+						ch = append(ch, pt.Chosen)
+					}
+					cs, _ := json.Marshal(c19Case{Threads: names, Choices: ch, Bound: bound, Input: 0, Note: "cold start: fresh process per schedule"})
+					out.Viols = append(out.Viols, mc.Viol{Order: int64(pi)<<8 | int64(nviol), Kind: "cold", Class: "cold", Case: cs,
+						Got: fmt.Sprintf("thread %d (%s) returned %s on first use", i, names[i], got), Want: "sequential result " + want})
+				}
+			}
+		})
+		out.Programs++
+		out.Schedules += st.Schedules
+		out.Points += st.Points
+		if st.MaxPoints > out.MaxPoints {
+			out.MaxPoints = st.MaxPoints
+		}
+		if st.Stuck {
+			out.Stuck = append(out.Stuck, fmt.Sprint(names, " (cold) ", lastErr))
+		}
+	}
+}
+
 // c19PickByLength measures, for every call, how many scheduling points each
 // variant executes when run alone, and picks per slot a variant with the most
 // points not above a target (so that loops are entered but executions stay
@@ -401,6 +573,12 @@ func c19JudgeInstr(kind string, cs c19Case) (got, want string) {
 			return "unknown call", ""
 		}
 		return c19GlobalsOne(alpha, ci, cs.Variant, cs.Input)
+	case "cold":
+		r := c19ColdOne(cs.Threads, cs.Choices)
+		if r.Err != "" || r.Stuck {
+			return "stuck or error: " + r.Err, fmt.Sprintf("%q", r.Want)
+		}
+		return fmt.Sprintf("%q", r.Results), fmt.Sprintf("%q", r.Want)
 	case "schedule":
 		in := c19Build(0, heapAlloc{})
 		seq := c19Forward(alpha, in)
